@@ -89,12 +89,7 @@ def fieldLookup (t : GT) (name : Str) : Option (List Nat) :=
 /-- `zoo` scenarios where the property text demands something else than the code does: (scenario, demanded
     outcome, region) -/
 def zooSpec : List (String × String × String) :=
-  [("nilptr_embedded_write", "!throw:TypeError", "struct_write_dropped_expando"),
-   ("shadowed_field", "outer,z|go:z,inner", "struct_lookup_depth_first_not_shallowest"),
-   ("promoted_ptr_write", "q|go:0,0,q", "struct_write_dropped_expando"),
-   ("unexported_embedded_write", "!throw:TypeError", "struct_write_dropped_expando"),
-   ("dash_field_write", "4|go:0,0,ia", "struct_dash_tag_read_only"),
-   ("keys_after_dropped_writes", "!throw:TypeError", "struct_write_dropped_expando"),
+  [("shadowed_field", "outer,z|go:z,inner", "struct_lookup_depth_first_not_shallowest"),
    ("slice_unshift", "5:8,9,1,2,3|go:[8 9 1]", "slice_write_beyond_length_rejected"),
    ("slice_splice_insert", ":1,7,7,2,3|go:[1 7 7]", "slice_write_beyond_length_rejected"),
    ("struct_promoted_enumeration", "true,x,true|A,B,Y,ZIn|A,B,Y,ZIn", "struct_promoted_fields_not_enumerated"),
